@@ -348,6 +348,8 @@ class SR:
     def __bool__(self): return ENG.branch(self.e != 0)
     def logical_not(self): return SB(self.e == 0)
     def __repr__(self): return f'SR({z3.simplify(self.e)})'
+    def __format__(self, spec): return repr(self)
+    def __hash__(self): return 0      # dict/set membership then decides by __eq__ (a fork)
 
     def _concrete(self):
         """value of this term if the path condition determines it uniquely (e.g. a 0/1 status after
@@ -375,7 +377,7 @@ class SR:
     def __float__(self): return float(self._concrete())
     def __int__(self): return int(self._concrete())
     def __index__(self): return int(self._concrete())
-    __hash__ = None
+
 
 
 def quot(num, den):
